@@ -357,9 +357,18 @@ def _entry_points(entry, hsdir, private_key, single_hop, version, ctl):
             started.append('control connection')
             return defer.Deferred()
     saved = (endpoints.get_global_tor_instance, controller_mod.launch, controller_mod.connect, endpoints.clientFromString)
-    endpoints.get_global_tor_instance = lambda *a, **kw: started.append('global tor') or defer.Deferred()
-    controller_mod.launch = lambda *a, **kw: started.append('launch') or defer.Deferred()
-    controller_mod.connect = lambda *a, **kw: started.append('connect') or defer.Deferred()
+    pending = []
+
+    def starter(what):
+        def start(*a, **kw):
+            started.append(what)
+            d = defer.Deferred()
+            pending.append(d)
+            return d
+        return start
+    endpoints.get_global_tor_instance = starter('global tor')
+    controller_mod.launch = starter('launch')
+    controller_mod.connect = starter('connect')
     endpoints.clientFromString = lambda r, desc: FakeClientEndpoint()
     valid = _valid(None, hsdir, 0, False, private_key, single_hop) and version in (None, 2, 3)
     kw = dict(hidden_service_dir='/var/lib/tor/hs' if hsdir else None, private_key='ED25519-V3:c2VjcmV0' if private_key else None,
@@ -378,6 +387,15 @@ def _entry_points(entry, hsdir, private_key, single_hop, version, ctl):
             else:
                 ep = TCPHiddenServiceEndpoint.private_tor(reactor, 80, **kw)
             refused = False
+            if valid and entry != 0 and len(pending) == 1:
+                # the connection / launch this endpoint depends on fails: listen() fails with that very error, nothing is left open
+                boom = RuntimeError('tor is not available')
+                o = fakes.Outcome(ep.listen(Factory()))
+                pending[0].errback(Failure(boom))
+                if o.fired != 1 or o.err != 1 or o.exc() is not boom:
+                    return R('listen-did-not-fail-with-the-error-of-the-failed-connection-or-launch', 'entry %d: fired=%d ok=%d %r', entry, o.fired, o.ok, o.exc())
+                if [fp for fp in reactor.ports if not fp.stopped]:
+                    return R('local-listener-left-open-after-failed-listen', 'entry %d', entry)
         except (ValueError, RuntimeError):
             refused = True
     finally:
